@@ -6,7 +6,7 @@ cd "$repo" || exit 2
 export CARGO_NET_OFFLINE=true CARGO_TARGET_DIR="$tgt"
 cargo nextest run --workspace --no-fail-fast --tool-config-file pb:/w/lib/nextest.toml --profile pb --test-threads 8 --offline > "$tgt/../baseline_run.log" 2>&1
 rc=$?
-junit="$tgt/nextest/pb/junit.xml"
+junit="$repo/target/nextest/pb/junit.xml"; [ -f "$junit" ] || junit="$tgt/nextest/pb/junit.xml"
 python3 - "$junit" <<'PY'
 import sys, json, xml.etree.ElementTree as ET
 b = json.load(open('/root/.vp/BASELINE.json'))
